@@ -200,7 +200,14 @@ pub fn sheet_p(ws: &Worksheet, o: Opts) -> Value {
         m.insert("cols".into(), Value::Object(cols));
     }
     if o.annotations {
-        m.insert("state".into(), json!(ws.get_sheet_state()));
+        m.insert(
+            "state".into(),
+            json!(match format!("{:?}", ws.get_state()).as_str() {
+                "Hidden" => "hidden",
+                "VeryHidden" => "veryHidden",
+                _ => "visible",
+            }),
+        );
         m.insert("merges".into(), json!(range_list(ws.get_merge_cells())));
         let mut cm = Map::new();
         for c in ws.get_comments() {
